@@ -204,4 +204,30 @@ CHECKS = {
                  'because every sent ping shifts it (counted as a probe, outside the statement)'),
         'technique': 'deterministic simulation with frame-indexed fault/stop triggers + settings-derived reference for the login burst and post-stop residue checks',
     },
+    'C13': {
+        'category': 'exploration',
+        'text': ('one real client with 3-4 scripted distributed peers; event sequences (<= 10) over potential-parent lists, outgoing and '
+                 'incoming D connections (direct, pierced, firewalled), branch level / root announcements in either order, repeated, '
+                 'level 0, from candidate / parent / child, disconnects of parent / child / candidate, own-speed answers around the '
+                 'thresholds, ParentMinSpeed / ParentSpeedRatio changes, ResetDistributed and session loss, interleaved by latency with '
+                 'the sends they trigger. Structural invariants are checked continuously, admission against the documented '
+                 'max-children formula, and at quiescence the last values told to the server and to every child against the derived '
+                 'position (models/tree.py).'),
+        'design_ref': 'DESIGN.md section 3 (C13), appendix B.7',
+        'note': ('advertised-value clauses are skipped while the session is gone (reading note 29 is counted by probes); a parent never '
+                 'advertises our own name as root; by-user parent/child overlap is judged once it lasted 1 virtual second'),
+        'technique': 'deterministic simulation with scripted distributed peers + tree reference model (invariants per event, advertised == derived at quiescence)',
+    },
+    'C14': {
+        'category': 'exploration',
+        'text': ('tree shapes (parent yes/no, 0-3 children, 0-2 candidates, a closed child) with children joining/leaving between '
+                 'requests; search requests over the three carriers (server, distributed, wrapped legacy) with arbitrary user / ticket / '
+                 'query incl. the own name, against a small scanned share tree with visible and locked files; oracle from the frames '
+                 'every actor received: exactly-once fan-out to current children only, nothing for own-name requests, exactly one '
+                 'PeerSearchReply with ticket, own name and the reference matcher\'s visible/locked sets, none without matches.'),
+        'design_ref': 'DESIGN.md section 3 (C14), appendix B.6/B.7',
+        'note': ('reply content uses the reference matcher of models/shares.py; only requests from the server (no parent) or from the '
+                 'parent are judged; askers unknown to the server are judged for fan-out only'),
+        'technique': 'deterministic simulation with scripted parent/children/asker + per-request history check against tree and share models',
+    },
 }
